@@ -22,7 +22,7 @@ Domain  : every MessageBase subclass found by reflection in the three protocol n
           Second kind of case: malformed envelopes (missing _type/_ns, unknown namespace, unknown / non-message type
           names, wrong JSON types, non-dict envelopes, wrong field types).
 Oracle  : round trip: deserialize(transport(serialize(m))) == m and type(result) is type(m); the difference is located
-          by a structural diff of model_dump() trees (NaN-aware).  Malformed: envelopes that do not name a message class
+          by a field-by-field structural diff of the two model objects (NaN-aware, leaf types strict).  Malformed: envelopes that do not name a message class
           of a protocol namespace MUST raise ProtocolDeserializationException; for every other malformed input nothing
           but ProtocolDeserializationException may be raised (acceptance by lax coercion is only counted).
 """
